@@ -68,6 +68,8 @@ class C13(Check):
                 if rng.random() < 0.33 else None
             spec = models.gen_net(rng, n_nodes=rng.randint(1, 4), uniq=uniq, max_edges=4, delays=dl,
                                   libs=libs, hier=rng.random() < 0.15, build='python' if tab else None)
+            if dl is None and rng.random() < 0.3:
+                models.add_edge_templates(rng, spec, p=0.6, uniq=uniq)
             for o in spec['ops'].values():
                 if o['lib'] == 'tab':
                     o['defaults']['wmid'] = float(rng.choice([1500, 3000, -1500, 750]))
